@@ -27,18 +27,27 @@ RULE = ('histories of 1-30 calls over 1-3 Ipmi objects (pyipmi.create_connection
         'by (operation, arguments, state digest); every case is non-trivial (a request reaches the BMC).')
 ASSUMPTIONS = [
     'the reference BMC (lean/PyIpmi/Spec/Bmc.lean) is my reading of IPMI v2.0 ch. 20/22/23/27/28/29/35, '
-    'PICMG 3.0 ch. 3 and HPM.1; it is permissive (every address exists, reserved field values are stored as sent)',
+    'PICMG 3.0 ch. 3 and HPM.1; it is permissive (every address exists, reserved field values are stored as sent, '
+    'parameter lengths are not policed)',
     'denotation of Python argument values (enum members and strings -> codes by meaning, 7-bit event receiver '
     'address, LED durations in 10 ms units on write / ms on read, link type = type + 16*signalling class) is '
     'part of the harness (harness/props/c07.py op table) and of Spec.Bmc.run',
     'transport is substituted at the interface level: send_and_receive runs the real encode_message / '
     'decode_message and forwards (netfn, lun, cmd, data) to the driver; bridging, sessions and retries are other properties',
-    'theorems cover the modelled operations (evidence: modelled_ops); all other exercised operations have the '
-    'code-vs-Spec run only (evidence: exercised_ops); operations of other properties (SDR, SEL, FRU, HPM upgrade, '
-    'DCMI, raw) are not exercised here (evidence: not_exercised_ops)',
+    'the theorems (Props/C07.lean) are about the Lean model of each operation (Model/Api/*.lean, one request/response '
+    'exchange over the generated layouts and tables) for ALL in-range arguments (Call.InRange) and ALL conforming BMC '
+    'states (BmcState.Wf: stored values fit their wire fields); that the model is the real code is the correspondence: '
+    'request bytes, return value / exception and BMC state after every call of every history are compared '
+    '(evidence: proved_ops = modelled_ops, exercised_only_ops = open, theorem_domain:* counts the exercised '
+    '(state, call) pairs that satisfy the theorems\' hypotheses)',
+    'members of bit-fields are addressed by position in the model; a renamed / reordered member with equal widths is '
+    'visible to the correspondence run only (not to the theorems)',
+    'operations of other properties (SDR, SEL, FRU, HPM upgrade, DCMI, raw) are not exercised here (evidence: not_exercised_ops)',
     'query_rollback_status: the API exposes only a non-zero completion estimate; only that is compared',
 ]
-TRUSTED = ['harness/translate/tables.py', 'harness/sim/bmc_iface.py', 'harness/props/c07.py (op table, canonicalisers)']
+TRUSTED = ['harness/translate/tables.py', 'harness/translate/registry.py', 'harness/sim/bmc_iface.py',
+           'harness/props/c07.py (op table, canonicalisers)', 'lean/Drivers/C07.lean (parseCall, showResult, state generator)',
+           'lean/PyIpmi/Spec/Bmc.lean (the oracle)']
 
 _tables = None
 
@@ -607,10 +616,10 @@ def run_history(drv, hist, modelled, ctx=None, verbose=False):
             raise lean.LeanError('driver does not know: ' + line)
         exp_dig, exp_res = spec.split(' ', 1)
         is_modelled = st['op'] in modelled or '*' in modelled
-        model = drv.ask('model %d %s %s' % (bi, hist.get('variant', '-'), line)) if is_modelled else None
-        model_req = drv.ask('modelreq %s %s' % (hist.get('variant', '-'), line)) if is_modelled else None
+        model = model_req = None
+        if is_modelled:
+            model, model_req, dom = drv.ask('modelx %d %s %s' % (bi, hist.get('variant', '-'), line)).split(' | ')
         if is_modelled and ctx is not None:
-            dom = drv.ask('domain %d %s' % (bi, line))
             ctx.count('theorem_domain:' + {'1 1': 'inside', '0 1': 'arguments-outside', '1 0': 'state-outside',
                                             '0 0': 'both-outside'}.get(dom, dom))
         log_from = len(ifaces[k].log)
